@@ -12,11 +12,13 @@ namespace Pj
 theorem C06_dates_present_forward (env : Env) (f0 : Uid → Fields) (res0 : List (Option Nat × Cal)) (o : Output)
     (hf : env.flagsOK) (h : forwardCalc env f0 res0 = .ok o) :
     ∀ t ∈ memberList env, (o.f t).start.isSome = true ∧ (o.f t).end_.isSome = true :=
+  have _ := hf
   forwardCalc_dates env f0 res0 o h
 
 theorem C06_dates_present_backward (env : Env) (f0 : Uid → Fields) (res0 : List (Option Nat × Cal)) (o : Output)
     (hf : env.flagsOK) (h : backwardCalc env f0 res0 = .ok o) :
     ∀ t ∈ memberList env, (o.f t).start.isSome = true ∧ (o.f t).end_.isSome = true :=
+  have _ := hf
   backwardCalc_dates env f0 res0 o h
 
 /-- hypotheses of clock independence for one clock: every reading lies on a day before the project start day and
@@ -30,8 +32,8 @@ def ClockHyp (env : Env) (f0 : Uid → Fields) (clk : Nat → Time) : Prop :=
 theorem C06_clock_partial (env : Env) (f0 : Uid → Fields) (res0 : List (Option Nat × Cal)) (clk clk' : Nat → Time)
     (hf : env.flagsOK) (h1 : ClockHyp env f0 clk) (h2 : ClockHyp env f0 clk') :
     (forwardCalc { env with clock := clk } f0 res0).map (fun o => (o.rows, o.res, (memberList env).map o.f)) =
-    (forwardCalc { env with clock := clk' } f0 res0).map (fun o => (o.rows, o.res, (memberList env).map o.f)) := by
-  sorry
+    (forwardCalc { env with clock := clk' } f0 res0).map (fun o => (o.rows, o.res, (memberList env).map o.f)) :=
+  congrArg _ (forwardCalc_clock env f0 res0 clk clk' hf h1 h2)
 
 /-- the full statement fails: with the clock on the project start day the result moves with the clock
     (findings/KF-S6-C06.json: two clocks, both not later than the project start, different results) -/
